@@ -52,7 +52,7 @@ func c11World(i2 int64) func() *ref.World {
 }
 
 func C11(rep *ev.Reporter, tier string) {
-	bud := NewBudget(50 * time.Second)
+	bud := NewBudget(150 * time.Second)
 	n3 := 5
 	if tier == "thorough" {
 		bud = NewBudget(9 * time.Minute)
